@@ -358,6 +358,11 @@ void mfuse::Archive(Archiver& arc, base_str<CharT>& s)
 
         if (length)
         {
+            if (length > arc.GetRemainingSize()) {
+                // the archive cannot hold that many characters: do not allocate on its say-so
+                throw ArchiveErrors::ReadStreamFail();
+            }
+
             s.resize(length);
             arc.ArchiveRaw(const_cast<CharT*>(s.c_str()), length);
         }
